@@ -52,7 +52,14 @@ impl Event {
         m.insert("l".into(), json!(self.label));
         m.insert("t".into(), json!(self.thread));
         for (k, v) in &self.fields {
-            m.insert((*k).into(), val_json(v));
+            // TLC cannot compare values of different types: an absent index is -1, any other
+            // absent value is the string "none".
+            let j = match v {
+                Val::N if matches!(*k, "idx" | "tx" | "dep" | "next" | "txid") => json!(-1),
+                Val::N => json!("none"),
+                other => val_json(other),
+            };
+            m.insert((*k).into(), j);
         }
         Value::Object(m)
     }
@@ -295,7 +302,7 @@ impl Controller {
     }
 
     pub fn user_emit(&self, label: &'static str, fields: Fields) {
-        self.emit(u32::MAX, label, fields);
+        self.emit(0x8000_0000, label, fields);
     }
 
     /// Block until `n` roots are registered and waiting for their first turn.
